@@ -255,12 +255,16 @@ func RegisterName(alias string, proto interface{}, tag ...string) {
 		name = alias
 	}
 	structTypeMap.Store(name, t)
+	// a registration is never answered from what earlier uses (or an earlier registration
+	// with other tags) have cached, and it updates the coders the type has already: the
+	// coders of the structs that contain it hold them
+	structFieldMapCache.Delete(t)
 	if name == "" {
 		newAnonymousStructEncoder(t, tag...)
 		newAnonymousStructDecoder(t, tag...)
 	} else {
-		newNamedStructEncoder(t, name, tag...)
-		newNamedStructDecoder(t, tag...)
+		buildNamedStructEncoder(t, name, true, tag...)
+		buildNamedStructDecoder(t, true, tag...)
 	}
 }
 
